@@ -105,7 +105,14 @@ def _inv(ex, key):
 
 
 def _oblige_inv(ex, key, what, st, lc, inv):
-    for label, f in inv(lc):
+    # entries labelled 'assume:...' are generator-side instances of definitional axioms / proved lemmas at the
+    # current loop index: they are hypotheses at the loop head, never obligations
+    entries = inv(lc)
+    hyp = [f for label, f in entries if label.startswith('assume:')]
+    if hyp:
+        st = st.copy(); st.assume(*hyp)
+    for label, f in entries:
+        if label.startswith('assume:'): continue
         ex.oblige(f'loop[{key}]/{what}:{label}', st, f, kind='loop')
 
 
@@ -119,13 +126,16 @@ def run_for(ex, s, st):
     for s1, it in ex.ev(s.iter, st):
         if isinstance(it, Raise): outs.append((s1, ('raise', it.exc))); continue
         items = static_items(ex, it)
-        if items is not None: outs.extend(unrolled(ex, s, s1, items))
+        custom = ex.spec.calls.get('for:' + loop_key(ex, s))
+        if custom is not None: outs.extend(custom(ex, s, s1, it))
+        elif items is not None: outs.extend(unrolled(ex, s, s1, items))
         elif isinstance(it, (PSeq,)) or (isinstance(it, ZV) and it.kind == 'val'): outs.extend(for_seq(ex, s, s1, it))
         elif isinstance(it, PSet): outs.extend(for_set(ex, s, s1, it))
+        elif isinstance(it, PDict):
+            ks = fresh('k', StringSort())
+            outs.extend(for_set(ex, s, s1, PSet(z3.Lambda([ks], Opt.is_Some(it.arr[ks])), 'str')))
         else:
-            h = ex.spec.calls.get('for:' + loop_key(ex, s))
-            if h is None: raise Unsupported(f'for-loop over {it!r} in {ex.spec.qual} (line {s.lineno})')
-            outs.extend(h(ex, s, s1, it))
+            raise Unsupported(f'for-loop over {it!r} in {ex.spec.qual} (line {s.lineno})')
     return outs
 
 
